@@ -31,6 +31,7 @@ EXTENDS Integers, Sequences, FiniteSets, TLC, Json
 CONSTANTS Magic, OtherMagic,  \* the caller's magic and some other 32-bit value
           Half, Max,          \* ChunkSize/2 and ChunkSize, in body cells
           ItemSizes,          \* sizes (cells) of the items a writer appends
+          SizeAlts,           \* values a corrupted body-size field may take
           MaxItems,           \* bound: items appended in a behaviour
           MaxOpens,           \* bound: storage objects created
           MaxDamage,          \* bound: Truncate/Flip events
@@ -245,7 +246,7 @@ FlipCore(i, alt) ==
 (* behaviours with history (exported for the S->I replay) *)
 Ids(body) == [j \in 1..Len(body) |-> body[j].a]
 Layout(f) == [j \in 1..Len(f) |-> f[j].k]
-Post == [len |-> Len(file'), tail |-> tail', layout |-> Layout(file'), off |-> offset']
+Post == [len |-> Len(file'), tail |-> tail', off |-> offset']
 
 Log(rec) == hist' = Append(hist, rec)
 
@@ -273,7 +274,7 @@ Next == /\ Len(hist) < MaxOps
         /\ \/ Open \/ ReadNext \/ Reset \/ StartWrite \/ FinishWrite \/ Close
            \/ \E sz \in ItemSizes : AppendItem(sz)
            \/ \E k \in 0..Len(file), t \in {0, 1} : Truncate(k, t)
-           \/ \E i \in 1..Len(file), alt \in 0..(Max + 1) : Flip(i, alt)
+           \/ \E i \in 1..Len(file), alt \in SizeAlts \cup {0} : Flip(i, alt)
 
 Spec == Init /\ [][Next]_vars
 
